@@ -935,6 +935,8 @@ PC_IADD_FORCED = [
     ('float64', 'float64', 1.0, 'shallow', 'asfortran', None, (1.0, 1.0)), ('complex128', 'float64', ['c', 0.0, 2.0], 'shallow', 'F', None, (1.0, 1.0)),
     ('complex128', 'complex128', ['c', 0.0, 1.0], 'shallow', None, None, (1.0, 1.0)), ('complex128', 'complex128', ['c', 0.5, 2.0], 'shallow-extend', None, None, (1.0, 1.0)),
     ('float64', 'float64', -1.5, 'shallow', None, None, (1.0, 1.0)),
+    # a prefactor beyond the range of the single-precision operand, within the range of the receiver (finding F04.3)
+    ('float64', 'float32', 1e300, 'none', None, None, (1.0, 1.0)), ('complex128', 'complex64', -1e39, 'none', None, None, (0.6, 0.6)),
 ]
 
 
